@@ -42,7 +42,8 @@ type StructDataProvider struct {
 
 func (s *StructDataProvider) Get(key string) any {
 	field := s.value.FieldByName(key)
-	if !field.IsValid() {
+	// an unexported field cannot be read through reflection (Interface would panic): it is absent
+	if !field.IsValid() || !field.CanInterface() {
 		return nil
 	}
 	return field.Interface()
